@@ -48,6 +48,11 @@ def stepLine (l : Loop) (line : String) : IO Loop := do
     | [a] => (a, "")
     | a :: rest => (a, " => ".intercalate rest)
     | [] => ("", "")
+  if lhs.startsWith "!" then
+    -- performed when the golden file was created (by the pinned release): replayed on the model only
+    if l.failed then return l
+    let r := stepOp l.st ((lhs.drop 1).toString.splitOn " ")
+    return { l with st := r.st }
   let f := lhs.splitOn " "
   let op := f.headD ""
   if op == "hist" then
@@ -133,6 +138,25 @@ def main (args : List String) : IO UInt32 := do
       IO.println s!"STAT {k}={v}"
     IO.println s!"SUMMARY histories={l.nHist} bad={l.nBad}"
     return 0
+  | ["images", path] =>
+    -- image stream: `<id> <path> <pagesize>` per line; the model's view of each image
+    let lines ← IO.FS.lines path
+    for line in lines do
+      let f := line.trimAscii.toString.splitOn " "
+      match f with
+      | [id, p, ps] =>
+        let ba ← IO.FS.readBinFile p
+        let pagesize := ps.toNat!
+        let s := srcOf ba
+        match openAny Gen.layout Gen.hashOrder Gen.oldHashOrder Sha3.sha3_256 s pagesize with
+        | .error .pagesizeMismatch => IO.println s!"{id} => panic:pagesize"
+        | .error _ => IO.println s!"{id} => panic:nometa"
+        | .ok mt =>
+          let rep := checkBytes Gen.layout Gen.hashOrder ba pagesize
+          if rep.ok then IO.println s!"{id} => ok;dump={rep.dump};check=ok ## tx={mt.txId} slot={mt.metaPage}"
+          else IO.println s!"{id} => bad:{rep.msg} ## tx={mt.txId} slot={mt.metaPage}"
+      | _ => pure ()
+    return 0
   | _ =>
-    IO.eprintln "usage: jmodel hist <trace>"
+    IO.eprintln "usage: jmodel hist <trace> | images <list>"
     return 2
